@@ -200,6 +200,10 @@ var Ops = []Op{
 	repl(kEnt, "value-dash-only-start", replaceValue("8:00 -")),
 	repl(kEnt, "value-dash-only-end", replaceValue("- 9:00")),
 	repl(kEnt, "value-tab-before-dash", replaceValue("8:00\t- 9:00")),
+	repl(kEnt, "value-tab-after-dash", replaceValue("8:00 -\t9:00")),
+	repl(kEnt, "value-tab-after-dense-dash", replaceValue("8:00-\t9:00")),
+	repl(kEnt, "value-space-tab-before-dash", replaceValue("8:00 \t- 9:00")),
+	repl(kEnt, "value-tab-before-placeholder", replaceValue("8:00 -\t?")),
 	repl(kEnt, "value-en-dash", replaceValue("8:00 – 9:00")),
 	repl(kEnt, "value-duration-60m-with-hours", replaceValue("1h60m")),
 	repl(kEnt, "value-duration-m-before-h", replaceValue("30m1h")),
